@@ -453,6 +453,10 @@ func c06Run(rc *core.RunCtx) {
 	if rc.Expired() || rc.Done() {
 		return
 	}
+	c.runNames()
+	if rc.Expired() || rc.Done() {
+		return
+	}
 	c.runPrec()
 	if rc.Expired() || rc.Done() {
 		return
